@@ -139,6 +139,46 @@ def run_merge_oracle(ctx, ncases):
                        signature={"why": "merge-sum"})
 
 
+def run_sum_invariant_oracle(ctx, ncases):
+    """position-0 value: every shift (any back-end, prune=0, no cap) leaves sum_k F+(k) and sum_k Z(k) unchanged --
+    also when states are handed over onto a coarser grid (integer shifts finer than kgrid followed by a float shift,
+    or a per-operator kgrid coarsened mid-sequence), which is where cells really merge"""
+    import epgpy as epg
+    for i in range(ncases):
+        dim = ctx.rng.choice([1, 2, 3])
+        grid = ctx.rng.choice([2.0, 3.0, 4.0])
+        steps = []
+        for _ in range(ctx.rng.randint(2, 4)):                       # fine phase: integer n-D shifts (spacing 1 < grid)
+            v = [ctx.rng.choice([1, -1, 2, 0]) for _ in range(dim)]
+            v[0] = v[0] or 1
+            steps.append(("int", v))
+        for _ in range(ctx.rng.randint(1, 3)):                       # hand-over: float shifts on the coarse grid
+            steps.append(("float", [ctx.rng.choice([1.0, 0.5, -1.5, 2.5]) for _ in range(dim)]))
+        sm = epg.StateMatrix(kgrid=grid)
+        desc = []
+        try:
+            for kind, v in steps:
+                a, p = ctx.rng.choice([30, 60, 90, 120]), ctx.rng.choice([0, 40, 90])
+                sm = epg.T(a, p)(sm, inplace=True)
+                sm = epg.E(5, 800, 60, 0.01)(sm, inplace=True)
+                f0, z0 = np.sum(sm.F), np.sum(sm.Z)
+                op = epg.S(np.array(v if kind == "float" else [int(x) for x in v]), prune=0)
+                sm = op(sm, inplace=True)
+                desc.append((kind, v, a, p))
+                f1, z1 = np.sum(sm.F), np.sum(sm.Z)
+                if abs(f1 - f0) > 1e-10 or abs(z1 - z0) > 1e-10:
+                    ctx.report("a %s shift %s changed the value reconstructed at position 0: sum F+ %s -> %s, sum Z %s -> %s (kgrid=%s)"
+                               % (kind, v, f0, f1, z0, z1, grid), {"steps": desc, "kgrid": grid}, found_input=True,
+                               signature={"why": "position-0-not-preserved", "kind": kind})
+                    break
+        except Exception as e:
+            ctx.report("grid hand-over sequence raised %s: %s" % (type(e).__name__, str(e)[:200]), {"steps": desc, "kgrid": grid}, found_input=True,
+                       signature={"raises": type(e).__name__, "site": "merge-handover"})
+            continue
+        ctx.count(("sum", repr(steps), grid))
+        ctx.cov["oracle_runs"] = ctx.cov.get("oracle_runs", 0) + 1
+
+
 def run(ctx):
     proved = ctx.prove(gen=False)
     quick = ctx.tier == "quick"
@@ -167,6 +207,7 @@ def run(ctx):
     run_trunc_oracle(ctx, 30 if quick else 1500)
     run_prune_oracle(ctx, 12 if quick else 400)
     run_merge_oracle(ctx, 12 if quick else 400)
+    run_sum_invariant_oracle(ctx, 25 if quick else 800)
     ctx.cov["trusted_base"] += ["hand-written model Model/Ops.v tied to shift.py by exact correspondence of truncated programs",
                                 "n-D truncation, pruning, partials pruner and merging clauses: implementation-side oracle runs only (testing)"]
     if not proved:
